@@ -42,8 +42,14 @@ let fmt_res (r : res) : string =
   | RErr -> "err"
   | RPanic -> "panic"
 
+let script_of (v : string) : z list list list =
+  List.map (fun b -> List.map (fun l -> List.map z_of_int (unhex l)) (nonempty (split '|' b))) (split '/' v)
+
+let cur_script : z list list list ref = ref []
+
 let parse_op (s : string) : op =
   match split ':' s with
+  | [ "run"; fuel ] -> ORun (zx fuel, !cur_script)
   | [ "price"; k; n; a ] -> OPrice (zx k, zx n, zx a)
   | [ "pricepc"; k; n ] -> OPricePc (zx k, zx n)
   | [ "w8"; a; v ] -> OW8 (zx a, zx v)
@@ -70,6 +76,7 @@ let parse_case (line : string) : case =
   let kvs = List.map split_kv toks in
   let find k = List.assoc_opt k kvs in
   let tag = match find "tag" with Some v -> Some (zx v) | None -> None in
+  cur_script := (match find "sock" with Some v -> script_of v | None -> []);
   let ovf = (find "ovf" = Some "1") in
   let sock = (find "sock" <> None) in
   let s = ref (init_cpu tag ovf sock) in
@@ -309,6 +316,22 @@ let ref_irq (c : case) : string * bool =
        (String.concat "|" (List.map (fun m -> hex_of_string (fmt_msg m)) (!s).cbus.b_msgs))
        (tohex_bytes (List.map int_of_z (!s).console)), true)
 
+(* kind=run: Cpu::run on a generated terminating program, against the reference run loop *)
+let ref_run_case (c : case) : string * bool =
+  match c.ops with
+  | [ ORun (fuel, _) ] ->
+    (match ref_run_init c.s0 with
+     | None -> ("", false)
+     | Some s0 ->
+       (match ref_run (Z.to_nat fuel) s0 (z_of_int 0) with
+        | None -> ("", false)
+        | Some RError -> ("resclass=err", true)
+        | Some (RFinished s1) ->
+          (Printf.sprintf "resclass=ok %s sum=%x msgs=%s con=%s" (fmt_state_tokens c s1) (int_of_z s1.ssum)
+             (String.concat "|" (List.map (fun m -> hex_of_string (fmt_msg m)) s1.cbus.b_msgs))
+             (tohex_bytes (List.map int_of_z s1.console)), true)))
+  | _ -> ("", false)
+
 (* kind=timer: histories of CPU writes to TCR/TCSR/TCORA/TCORB/TCNT of 8-bit timer channel 0, instruction
    charges (tick:n) and reads, against the tick-by-tick reference *)
 let ref_timer (c : case) : string * bool =
@@ -387,6 +410,16 @@ let () =
           | "step" ->
             let (r, d) = ref_step_case c in
             Printf.fprintf oc "R id=%s %s\nD id=%s %s\n" c.id r c.id d
+          | "run" ->
+            let (r, d) = ref_run_case c in
+            Printf.fprintf oc "R id=%s %s\nD id=%s C13=%d\n" c.id r c.id (if d then 1 else 0)
+          | "sock" ->
+            (* the reference for control lines is the model's line semantics (characterised by the C18 theorems) *)
+            let ers = List.init 8 (fun i -> Printf.sprintf "%x" (int_of_z (get_er s1.er (z_of_int i)))) in
+            ignore ers;
+            let m = fmt_obs c rs s1 in
+            let toks = List.filter (fun t -> let (k, _) = split_kv t in List.mem k [ "res"; "md"; "pin"; "msgs"; "sum"; "pc" ]) (nonempty (split ' ' m)) in
+            Printf.fprintf oc "R id=%s %s\nD id=%s C18=1\n" c.id (String.concat " " toks) c.id
           | "irq" ->
             let (r, d) = ref_irq c in
             Printf.fprintf oc "R id=%s %s\nD id=%s C10=%d\n" c.id r c.id (if d then 1 else 0)
